@@ -1,7 +1,7 @@
 import os
 """Rule framework: contexts, results, known findings, evidence."""
 import json, os, sys, time, re
-from facts import build_facts, load_facts, VERIF, WORK, REPO
+from facts import build_facts, load_facts, VERIF, WORK, REPO, last_seg, strip_generics
 from anchors import Anchors, AnchorError
 from events import Events
 from flow import DefUse
@@ -81,7 +81,62 @@ class Ctx:
             self._traces[key] = Trace(self.facts, entry, self.E.classify, classify_stmt=self.E.classify_stmt,
                                       const_args=const_args, view=(self.x if os.environ.get('JL_TRACE_VIEWS', '0') == '1' else None),
                                       follow_drops=os.environ.get('JL_FOLLOW_DROPS', '1') == '1')
+            self._reclassify_writes(self._traces[key])
         return self._traces[key]
+
+    def _reclassify_writes(self, T):
+        """a file write that sits in a small helper (`write_fully(file, buf)`, `write_at(file, offset, buf)`) is a header write where the caller hands it a sealed header
+        image: the buffer parameter is followed into the arguments of the call sites on the trace context"""
+        cs = self.A.roles.get('checksum-role')
+        if cs is None:
+            return
+        import commit
+        sealers = self.E._sealers()
+        for n in T.nodes:
+            if n.bb is None or n.virt or not n.ctx:
+                continue
+            for e in n.events:
+                if e.get('ev') == 'W' and e.get('sub') == 'D' and not e.get('buffered'):
+                    t = n.fn.term(n.bb)
+                    if t['k'] != 'call' or len(t.get('args', [])) < 2:
+                        continue
+                    # only where the written buffer IS a byte-slice parameter of the helper (possibly re-sliced: `&buf[done..]`)
+                    tr = self.du(n.fn).sym(t['args'][1])
+                    for _ in range(6):
+                        if tr[0] == 'call' and tr[2] and last_seg(strip_generics(tr[1])) in ('index', 'deref', 'as_slice', 'as_ref', 'get_unchecked', 'split_at', 'borrow'):
+                            tr = tr[2][0]
+                        elif tr[0] in ('un', 'ref') and len(tr) >= 2:
+                            tr = tr[-1]
+                        else:
+                            break
+                    if not (tr[0] == 'arg' and 1 <= tr[1] <= n.fn.argc and 'u8' in n.fn.locals[tr[1]]['ty']) and not (tr[0] == 'phi' and any(
+                            'u8' in n.fn.locals[i]['ty'] and n.fn.locals[i]['ty'].startswith('&') for i in range(1, n.fn.argc + 1))):
+                        continue
+                    # follow the parameter up, frame by frame, for as long as the buffer is handed through as a plain parameter; the first frame that builds the buffer
+                    # decides (going further up reaches whole-transaction state, where a flow-insensitive slice sees everything)
+                    bytes_params = [i for i in range(1, n.fn.argc + 1) if n.fn.locals[i]['ty'].startswith('&') and 'u8' in n.fn.locals[i]['ty']]
+                    k = tr[1] if tr[0] == 'arg' else (bytes_params[0] if len(bytes_params) == 1 else None)      # (`buf = &buf[n..]` in a loop is a phi of the one byte-slice parameter)
+                    frames = list(n.ctx)
+                    while frames and k is not None:
+                        cfn, cbb = frames[-1][0], frames[-1][1]
+                        ct = cfn.term(cbb)
+                        frames = frames[:-1]
+                        if 'args' not in ct or k - 1 >= len(ct['args']):
+                            break
+                        arg = ct['args'][k - 1]
+                        tr2 = self.du(cfn).sym(arg)
+                        for _ in range(6):
+                            if tr2[0] == 'call' and tr2[2] and last_seg(strip_generics(tr2[1])) in ('index', 'deref', 'as_slice', 'as_ref', 'borrow'):
+                                tr2 = tr2[2][0]
+                            else:
+                                break
+                        if tr2[0] == 'arg' and 1 <= tr2[1] <= cfn.argc and 'u8' in cfn.locals[tr2[1]]['ty']:
+                            k = tr2[1]
+                            continue
+                        _, up = self.du(cfn).slice_operand(arg)
+                        if any(a[0] == 'call' and (a[2] == cs.path or a[2] in sealers) for a in up):
+                            e['sub'] = 'H'
+                        break
 
     def need(self, *names):
         return self.A.need(*names)
